@@ -1,5 +1,5 @@
 PROP = {
-    "groups": ["relayneg"],
+    "groups": ["relayneg", "e2e-tmux-relay"],
     "rule": "the REAL relay: (a) handshake() run through the export on relays with every tmux mode / known and unknown pane "
             "width / Windows-server flag: every client capability set (binary, support_dir, fork, tunnel each absent/false/true x "
             "protocol absent,0..9 x newline absent,\\n,!\\n) against a corpus with every server option, then random ACT x CFG "
